@@ -571,6 +571,15 @@ class TypeGen:
         counter = itertools.count()
         return draw(self._t(self.max_depth, counter, (), hashable=False))
 
+    def model_root_strategy(self):
+        """Types whose root is a model (for checks that aim at the model loader / dumper itself)."""
+        return self._model_root()
+
+    @st.composite
+    def _model_root(draw, self):  # noqa: N805
+        counter = itertools.count()
+        return draw(self._model(self.max_depth, counter, ()))
+
     def _scalar(self, counter, hashable):
         opts = [st.sampled_from([[t] for t in SCALAR_TAGS_COMMON])] * 3
         if self.rich:
